@@ -7,6 +7,7 @@ from tools.lib.framework import impl_call
 
 CLAIMED = True
 CONFIG = {'assumptions': [
+    'the library runs under CPython\'s default recursion limit (1000)',
     'sections are handed to DWARFInfo as BytesIO streams with size = len(bytes)',
     'names are valid UTF-8; the library decodes them, the comparison re-encodes them',
     'zero-length address tuples count as conflicting with a range they start in (Spec ranges_conflict)',
@@ -377,6 +378,26 @@ def gen(ctx):
 
 
 # --------------------------------------------------------------------------------------------- implementation side
+PY_DEFAULT_RECURSION_LIMIT = 1000
+
+
+def _stock_interpreter(f):
+    """the library is observed under CPython's DEFAULT recursion limit (./check raises it for its own S-expression code):
+    a lookup whose stack depth grows with the number of units or sets it passes must show as RecursionError"""
+    import functools
+    import sys
+
+    @functools.wraps(f)
+    def g(*a, **kw):
+        old = sys.getrecursionlimit()
+        sys.setrecursionlimit(PY_DEFAULT_RECURSION_LIMIT)
+        try:
+            return f(*a, **kw)
+        finally:
+            sys.setrecursionlimit(old)
+    return g
+
+
 def _dwarfinfo(le, addr_size, **secs):
     from elftools.dwarf.dwarfinfo import DWARFInfo, DebugSectionDescriptor, DwarfConfig
     def sec(name):
@@ -395,6 +416,7 @@ def _entry_obs(e):
     return [e.begin_addr, e.length, e.info_offset, e.unit_length, e.version, e.address_size, e.segment_size]
 
 
+@_stock_interpreter
 def _impl_aranges(le, data, addrs, addr_size):
     def build():
         return _dwarfinfo(le, addr_size, debug_aranges=data).get_aranges()
@@ -412,6 +434,7 @@ def _impl_aranges(le, data, addrs, addr_size):
     return table, looks
 
 
+@_stock_interpreter
 def _impl_names(le, which, data, queries, addr_size):
     def run():
         di = _dwarfinfo(le, addr_size, **{'debug_' + which: data})
@@ -448,6 +471,7 @@ def _cu_obs(cu):
             cu.cu_die_offset]
 
 
+@_stock_interpreter
 def _impl_history(le, info, ops, addr_size):
     from elftools.dwarf.namelut import NameLUTEntry
     di = _dwarfinfo(le, addr_size, debug_info=info, debug_abbrev=_abbrev_section())
